@@ -42,7 +42,9 @@ def run(tier, replay=None):
               "generated subtitles; encrypted init + media), patch documents (/patch/..mpp?publishTime=), too-early / gone / unknown "
               "requests; every request served by: discovery instance, ONE long-running instance (pool order, seeded permutation, twice in a "
               "row, 32-way concurrent seeded mix, again sequentially), fresh instances, an instance writing representation metadata, an "
-              "instance loaded from that metadata, and a second process (built with -race: 28+4-way mix with urlgen/assets//reqcount//metrics "
+              "instance loaded from that metadata directory - which per run also holds files that parse but are refused by the loader's later "
+              "checks: the file of a legal asset with a gap in its SegmentTimeline (g_c07gap) and two stale files (endTime of one segment "
+              "edited, one of them testpic_2s V300/A48) -, and a second process (built with -race: 28+4-way mix with urlgen/assets//reqcount//metrics "
               "pages, concurrent fresh instance, ingest API create/get/step/delete from unsynchronised goroutines); ONE memo key->digest over "
               "all of them; distinct = request keys answered in >= 4 instance/phase combinations")
     c.assumptions = [
@@ -116,6 +118,10 @@ def run(tier, replay=None):
     if stm["responses"] < 0.8 * n or stm["keys_in_4_or_more_instance_phases"] < 0.9 * stm["pool"] or stm["rep_metadata_files"] <= 0:
         vac.append(f"main driver coverage too small: responses={stm['responses']} pool={stm['pool']} "
                    f"refused_at_discovery={stm['mpd_refused_at_discovery']}")
+    if not stm.get("refused_gap_files") or not stm.get("refused_stale_files") or \
+            min(stm.get("gap_asset_200", {}).get("mpd", 0), stm.get("gap_asset_200", {}).get("media", 0)) <= 0:
+        vac.append(f"metadata directory of the loading instance lacks a refused-after-parse file of both kinds or the gap asset was not served: "
+                   f"gap={stm.get('refused_gap_files')} stale={stm.get('refused_stale_files')} gap_asset_200={stm.get('gap_asset_200')}")
     for src, st in (("main", stm), ("race", str_)):
         for k in NEEDED_KINDS:
             if st["status_by_kind"].get(k, {}).get("200", 0) <= 0:
